@@ -1146,3 +1146,55 @@ example : parseArgT noDb ⟨none, fun _ => none⟩ (.choice [[97], [98, 32, 99]]
     parseArgT noDb ⟨none, fun _ => none⟩ (.choice [[97]]) [65] = none := by decide
 
 end MitmVerif.Props.C45
+
+/-! ### round-6 cross-audit: non-vacuity witnesses on non-trivial values (appended by the auditor, examples only) -/
+namespace MitmVerif.Props.C45
+open MitmVerif.C45
+
+/-- `unquote_quote` on TAB, backslash, single quote, é, blank, € -/
+example : unquote (quote [9, 92, 39, 233, 32, 8364]) = [9, 92, 39, 233, 32, 8364] :=
+  unquote_quote _ (by decide)
+
+/-- `unquote_quote_both` on `'"\ é`: the text comes back with `\x22` for the double quote, i.e. NOT unchanged -/
+example : unquote (quote [39, 34, 92, 32, 233]) = escDq [39, 34, 92, 32, 233] ∧
+    unquote (quote [39, 34, 92, 32, 233]) ≠ [39, 34, 92, 32, 233] :=
+  ⟨unquote_quote_both _ (by decide) (by decide), by decide⟩
+
+/-- `str_unescape_unquote_quote` with both quote characters, a blank, é and a TAB -/
+example : strParse noDb (unquote (quote [39, 34, 32, 233, 9])) = some [39, 34, 32, 233, 9] :=
+  str_unescape_unquote_quote noDb _ (by decide)
+
+/-- `arg_unchanged_partial` for verbatim parameters: three arguments — backslash-n, blank, quote, é, TAB / `"\` / empty -/
+example : execute noDb (fun _ => some .verbatim) (cmdline [116] [[92, 110, 32, 39, 233, 9], [34, 92], []]) =
+    .call [116] [[92, 110, 32, 39, 233, 9], [34, 92], []] :=
+  arg_unchanged_partial _ _ _ _ _ ⟨by decide, by decide⟩ rfl (by decide)
+
+/-- the `str` guard of `arg_unchanged_partial` (no backslash) is wider than the class that fails (F-C45b): `\q` is
+    excluded by the guard although it arrives unchanged -/
+example : argOk .str [92, 113] = false ∧
+    execute noDb (fun _ => some .str) (cmdline [116] [[92, 113]]) = .call [116] [[92, 113]] := by decide
+
+/-- hypothesis of `execute_delivers_typed_tokens`: the raw line `t "a b" 'c' d\x41` on `(verbatim, *rest : str)` -/
+example : executeSig noDb (fun _ => some ⟨[.verbatim], some .str⟩)
+    [116, 32, 34, 97, 32, 98, 34, 32, 39, 99, 39, 32, 100, 92, 120, 52, 49] =
+    .call [116] [[97, 32, 98], [99], [100, 65]] := by decide
+
+/-- hypothesis of `bindTys_spec` with positional parameters and `*rest` -/
+example : bindTys ⟨[.str, .verbatim], some .str⟩ 4 = some [.str, .verbatim, .str, .str] := by decide
+
+/-- `arity_mismatch_runs_nothing` with three awkward arguments for a one-parameter command -/
+example : executeSig noDb (fun _ => some ⟨[.str], none⟩) (cmdline [116] [[97, 32], [39, 34], [233]]) = .arity :=
+  arity_mismatch_runs_nothing _ _ _ ⟨[.str], none⟩ _ ⟨by decide, by decide⟩ rfl (by decide)
+
+/-- `lexer_splits_at_unquoted_ws_partial` applied: `x "b c" 'd` (an unterminated quote at the end) -/
+example : argTokens [120, 32, 34, 98, 32, 99, 34, 32, 39, 100] = refSplit [120, 32, 34, 98, 32, 99, 34, 32, 39, 100] :=
+  lexer_splits_at_unquoted_ws_partial _ (by decide)
+
+/-- `path_arg_roundtrip` on `/ 'é` -/
+example : parseArgT noDb ⟨none, fun _ => none⟩ .path (unquote (quote [47, 32, 39, 233])) = some (.s [47, 32, 39, 233]) :=
+  path_arg_roundtrip _ _ _ (by decide) (by decide)
+
+/-- hypotheses of `defaults_fill_exactly_the_missing`: one of three parameters given, two defaults -/
+example : bindD ⟨[.str, .str, .int], [.s [100], .i 7], none⟩ 1 = some ([.str], [.s [100], .i 7]) := by decide
+
+end MitmVerif.Props.C45
